@@ -89,7 +89,7 @@ def _register(a):
     return i
 
 
-def relevant_assumptions(ob, depth, min_size=40):
+def relevant_assumptions(ob, depth, min_size=40, strict=False):
     """A sound weakening used as an EARLY attempt only (unsat of a query with fewer assumptions implies unsat of the
     full one; any other answer falls through to a larger subset and finally to the full query).
     Assumptions are selected by `depth` rounds of symbol sharing starting from the goal; symbols that occur in very many
@@ -114,7 +114,7 @@ def relevant_assumptions(ob, depth, min_size=40):
         new = set()
         for sym in frontier:
             lst = _INDEX.get(sym, ())
-            if rnd > 0 and len(lst) > lim and len(lst & aset) > lim:
+            if (rnd > 0 or strict) and len(lst) > lim and len(lst & aset) > lim:
                 continue        # ubiquitous symbol: does not propagate (the goal's own symbols always do)
             for tid in lst:
                 if tid in aset and tid not in used:
@@ -156,7 +156,7 @@ def _direct_worker(job):
     ob = _SHARED_OBS[i]
     t0 = time.time()
     try:
-        asm = relevant_assumptions(ob, depth)
+        asm = relevant_assumptions(ob, abs(depth), strict=depth < 0)
         if asm is None:
             return i, 'skip', 0.0
         s = z3.Solver()
@@ -347,7 +347,7 @@ def discharge(obs, timeout_s=10, use_cvc5=True, tactic=None, nproc=None):
         groups.setdefault(key, []).append(i)
     batch = []
     for key, members in groups.items():
-        if len(members) >= 8:
+        if len(members) >= 40 and len(obs[members[0]].assumptions) <= 400:
             for c in range(0, len(members), 400):
                 chunk = members[c:c + 400]
                 sol = z3.Solver()
@@ -375,8 +375,8 @@ def discharge(obs, timeout_s=10, use_cvc5=True, tactic=None, nproc=None):
     # early attempts on small, relevant subsets of the assumptions (cheap to serialise and to solve)
     global _SHARED_OBS
     _SHARED_OBS = obs
-    for depth in (1, 3):
-        todo = [(i, depth, max(1500, timeout_s * 150)) for i in jobs if obs[i].kind != 'cover' and len(obs[i].assumptions) >= 40]
+    for depth in (1, 3):         # (a negative depth selects the strict variant: ubiquitous symbols never propagate, not even from the goal)
+        todo = [(i, depth, max(1500, timeout_s * (60 if depth < 0 else 150))) for i in jobs if obs[i].kind != 'cover' and len(obs[i].assumptions) >= 40]
         if not todo:
             continue
         if len(todo) > 1 and n_workers > 1:
